@@ -133,7 +133,10 @@ func paramNames(fd *ast.FuncDecl) (names []string, idents []*ast.Ident) {
 	return
 }
 
+var inlinedFuncs = map[string]bool{}
+
 func (ex *Exec) inline(fr *FuncRef, args []Value, at ast.Node) Value {
+	inlinedFuncs[fr.QName()] = true
 	if len(ex.frames) > 40 {
 		ex.unsupported("inline depth exceeded at %s", fr.QName())
 	}
